@@ -426,7 +426,7 @@ def c11(c):
 
 
 C12_THEOREMS = ["Ctl.afterCb_passive", "Ctl.hFinish_passive", "Ctl.hAccepted_passive", "Ctl.hIter_passive", "Ctl.hLoop_passive",
-                "SolOutM.step_flag"]
+                "SolOutM.step_flag", "c12_dense_flag_passive", "c12_dense_flag_passive_dopri5", "Ctl.hIter_erase", "Ctl.dopri5_densePassive"]
 
 
 def c12(c):
